@@ -53,8 +53,40 @@ def _cls(ctx):
     return ctx.repo.get_class(FORT, CLS)
 
 
-def _m(ctx, name):
-    return ctx.repo.get_func(FORT, f"{CLS}.{name}")
+# methods the rules anchor on (all exist in the pinned tree): they stay calls when a function is viewed with its private helpers
+# spliced in; every other private helper (extracted emitters, layout helpers, ...) is inlined statement by statement
+_ANCHORS = ("_auto_param_indices", "_emit_auto_jacobian_block", "_compose_bvp_body", "_resolve_bvp_residual",
+            "_build_auto_constants_file", "_generate_auto_files")
+_VIEWED = ("_generate_auto_files", "generate_func_head")
+
+
+def _m(ctx, name, raw=False):
+    f = ctx.repo.get_func(FORT, f"{CLS}.{name}")
+    if raw or name not in _VIEWED:
+        return f
+    cache = ctx.__dict__.setdefault("_c18_views", {})
+    if name not in cache:
+        v = f
+        try:
+            from engine.inline import inlined
+            v = inlined(ctx, f, keep=_ANCHORS)
+        except (ImportError, AnalysisError):
+            v = f
+        cache[name] = v
+    return cache[name]
+
+
+def _callee_view(ctx, f):
+    from .c12 import analysis_view
+    try:
+        return analysis_view(ctx, f)
+    except AnalysisError:
+        return f
+
+
+def _spliced_into(ctx, view, f) -> bool:
+    """was helper `f` spliced into the inlined view (so that its statements are already looked at there)?"""
+    return any(h.split("::")[-1] == f.qualname for h in getattr(view, "inlined_helpers", ()) or ())
 
 
 def _stmt(n):
@@ -104,6 +136,9 @@ class SlotModel:
                     role, base, rest = element_origin(b.expr, b.path)
                     if role == "elem" and not rest and isinstance(base, ast.Name) and base.id in self.lists:
                         r = (b.node, f"element of `{base.id}`")
+                    elif role == "elem" and not rest and isinstance(base, ast.Subscript) and isinstance(base.slice, ast.Slice) \
+                            and isinstance(base.value, ast.Name) and base.value.id in self.lists:
+                        r = (b.node, f"element of a slice of `{base.value.id}`")
                     elif role == "value" and not rest and self.is_map(base):
                         r = (b.node, f"value of slot map `{ast.unparse(base)}`")
                 elif b.kind == "value" and not b.path and b.expr is not None:
@@ -217,10 +252,8 @@ def _classify_list_uses(ctx, rid, f, S: Scope, M: SlotModel, callee_hook=None):
             if isinstance(st, ast.Assign) and len(st.targets) == 1 and isinstance(st.targets[0], ast.Name) \
                     and st.targets[0].id not in M.lists and isinstance(st.value, ast.Subscript) \
                     and isinstance(st.value.value, ast.Name) and st.value.value.id in M.lists and isinstance(st.value.slice, ast.Slice):
-                sl = st.value.slice
-                if sl.lower is None and sl.step is None and isinstance(sl.upper, ast.Call) and call_name(sl.upper) == "len" \
-                        and len(sl.upper.args) == 1 and isinstance(sl.upper.args[0], ast.Name):
-                    R = sl.upper.args[0]
+                R = _prefix_bound(S, st.value.slice)
+                if R is not None:
                     M.lists[st.targets[0].id] = ("prefix", R, M.defs(R))
                     changed = True
                 else:
@@ -248,12 +281,21 @@ def _classify_list_uses(ctx, rid, f, S: Scope, M: SlotModel, callee_hook=None):
         # (b) prefix slice
         if isinstance(par, ast.Subscript) and par.value is n and isinstance(par.slice, ast.Slice):
             ast_st = _stmt(n)
-            if not (isinstance(ast_st, ast.Assign) and ast_st.value is par and len(ast_st.targets) == 1
-                    and isinstance(ast_st.targets[0], ast.Name) and ast_st.targets[0].id in M.lists):
-                raise AnalysisError(f"{rid}: {f.qual}: `{norm(st)}` slices the slot list in an unrecognised way")
-            tgt = ast_st.targets[0].id
-            R = M.lists[tgt][1]
+            if isinstance(ast_st, ast.Assign) and ast_st.value is par and len(ast_st.targets) == 1 \
+                    and isinstance(ast_st.targets[0], ast.Name) and ast_st.targets[0].id in M.lists:
+                tgt = ast_st.targets[0].id
+                R = M.lists[tgt][1]
+            else:
+                # the prefix is not named but iterated where it is taken: `for slot in slots[:len(R)]`
+                gp = parent(par)
+                R = _prefix_bound(S, par.slice)
+                if R is None or not (isinstance(gp, ast.comprehension) and gp.iter is par or isinstance(gp, ast.For) and gp.iter is par):
+                    raise AnalysisError(f"{rid}: {f.qual}: `{norm(st)}` slices the slot list in an unrecognised way")
+                tgt = ast.unparse(par)
             good, why = _is_prefix_of(S, M, R, n.id)
+            if good is None:
+                raise AnalysisError(f"{rid}: {f.qual}: cannot decide whether `{R.id}` is a prefix of `{ast.unparse(seq)}` ({why}) for "
+                                    f"`{norm(st)}`")
             if good:
                 ctx.ok(rid, f, st, f"`{tgt}` is the prefix of the slot list that belongs to `{R.id}`, a prefix of `{ast.unparse(seq)}`",
                        {"why": why}, label=label)
@@ -286,27 +328,110 @@ def _classify_list_uses(ctx, rid, f, S: Scope, M: SlotModel, callee_hook=None):
         raise AnalysisError(f"{rid}: {f.qual}: unrecognised use of the slot list `{n.id}` in `{norm(st)}`")
 
 
-def _is_prefix_of(S: Scope, M: SlotModel, R: ast.Name, listname: str) -> Tuple[bool, str]:
-    """Is sequence R a prefix of the sequence the full list was computed for?"""
+def _prefix_bound(S: Scope, sl: ast.Slice) -> Optional[ast.Name]:
+    """`[:len(R)]` (the bound possibly held in a local): the Name node R; else None"""
+    if not isinstance(sl, ast.Slice) or sl.lower is not None or sl.step is not None or sl.upper is None:
+        return None
+    up = S.single_value(sl.upper)
+    if isinstance(up, ast.Call) and call_name(up) == "len" and len(up.args) == 1 and isinstance(up.args[0], ast.Name):
+        return up.args[0]
+    return None
+
+
+def _seq_term(S: Scope, e: ast.AST, at, depth=0):
+    """Normal form of a sequence-valued expression at statement `at`: (base atom, tuple of right-appended pieces).
+    Copies (tuple(x)/list(x)) are transparent, single definitions are inlined; a name with several reaching definitions is an
+    atom identified by that set of definitions (so two reads between which it is not re-bound are equal)."""
+    if depth > 12:
+        return (("expr", ast.dump(e)), ())
+    while isinstance(e, ast.Call) and isinstance(e.func, ast.Name) and e.func.id in ("tuple", "list") and len(e.args) == 1:
+        e = e.args[0]
+    if isinstance(e, ast.BinOp) and isinstance(e.op, ast.Add):
+        b, ex = _seq_term(S, e.left, at, depth + 1)
+        rb, rex = _seq_term(S, e.right, at, depth + 1)
+        return (b, ex + ((rb, rex),))
+    if isinstance(e, ast.Name):
+        defs = S.rd.defs_reaching_at(at, e.id) if at is not None else []
+        if len(defs) == 1 and isinstance(defs[0], ast.Assign):
+            d = defs[0]
+            for t in d.targets:
+                if isinstance(t, ast.Name) and t.id == e.id:
+                    return _seq_term(S, d.value, d, depth + 1)
+                if isinstance(t, (ast.Tuple, ast.List)) and isinstance(d.value, (ast.Tuple, ast.List)) and len(t.elts) == len(d.value.elts):
+                    for te, ve in zip(t.elts, d.value.elts):
+                        if isinstance(te, ast.Name) and te.id == e.id:
+                            return _seq_term(S, ve, d, depth + 1)
+        return (("name", e.id, frozenset(id(d) for d in defs)), ())
+    return (("expr", ast.dump(e)), ())
+
+
+def _is_prefix_of(S: Scope, M: SlotModel, R: ast.Name, listname: str) -> Tuple[Optional[bool], str]:
+    """Is sequence R a prefix of the sequence the full list was computed for?  True / False (positively not) / None (unknown)."""
     full = [k for k, v in M.lists.items() if v[0] == "full"]
     kind, seq, seqdefs = M.lists[full[0]]
+    old: Optional[bool] = None
+    why = f"`{R.id}` is not recognisably derived from `{ast.unparse(seq)}`"
     rb = S.binds(R)
-    if len(rb) != 1 or rb[0].kind != "value":
-        return False, f"`{R.id}` has no single definition"
-    src = strip_wrappers(rb[0].expr)
-    if not (isinstance(src, ast.Name) and isinstance(seq, ast.Name) and src.id == seq.id):
-        return False, f"`{R.id}` is not a copy of `{ast.unparse(seq)}`"
-    src_defs = frozenset(id(d) for d in S.rd.defs_reaching(src))
-    by_id = {id(d): d for d in S.rd.defs_reaching(seq)}
-    for did in seqdefs:
-        if did in src_defs:
+    if len(rb) == 1 and rb[0].kind == "value" and not rb[0].path and rb[0].expr is not None:
+        src = strip_wrappers(rb[0].expr)
+        if isinstance(src, ast.Name) and isinstance(seq, ast.Name) and src.id == seq.id:
+            src_defs = frozenset(id(d) for d in S.rd.defs_reaching(src))
+            by_id = {id(d): d for d in S.rd.defs_reaching(seq)}
+            old = True
+            why = f"{R.id} = copy of {src.id}; later definitions only append on the right"
+            for did in seqdefs:
+                if did in src_defs:
+                    continue
+                d = by_id.get(did)
+                v = d.value if isinstance(d, ast.Assign) else None
+                if isinstance(v, ast.BinOp) and isinstance(v.op, ast.Add) and isinstance(v.left, ast.Name) and v.left.id == R.id:
+                    continue
+                old = False if isinstance(v, ast.BinOp) and any(isinstance(x, ast.Name) and x.id == R.id for x in ast.walk(v)) else None
+                why = f"`{norm(d) if d is not None else '?'}` does not extend `{R.id}` on the right"
+                break
+    if old is not None:
+        return old, why
+    # general form: compare normal forms, pairwise for every definition when R and the sequence come out of one tuple
+    # (`R, A = helper_result` with one (r, a) pair per branch)
+    seq_st = _stmt(seq) if getattr(seq, "_parent", None) is not None else None
+    use_st = _stmt(R)
+    if seq_st is None or use_st is None or not isinstance(seq, ast.Name):
+        return None, why
+    pairs = None
+    dR, dA = S.rd.defs_reaching_at(use_st, R.id), S.rd.defs_reaching_at(seq_st, seq.id)
+    if len(dR) == 1 and len(dA) == 1 and dR[0] is dA[0] and isinstance(dR[0], ast.Assign):
+        d = dR[0]
+        for t in d.targets:
+            if isinstance(t, (ast.Tuple, ast.List)):
+                names = [x.id if isinstance(x, ast.Name) else None for x in t.elts]
+                if R.id in names and seq.id in names:
+                    iR, iA = names.index(R.id), names.index(seq.id)
+                    v = d.value
+                    if isinstance(v, (ast.Tuple, ast.List)) and len(v.elts) == len(names):
+                        pairs = [(v.elts[iR], v.elts[iA], d)]
+                    elif isinstance(v, ast.Name):
+                        pairs = []
+                        for dx in S.rd.defs_reaching_at(d, v.id):
+                            vx = dx.value if isinstance(dx, ast.Assign) and any(isinstance(tt, ast.Name) and tt.id == v.id for tt in dx.targets) else None
+                            if not (isinstance(vx, (ast.Tuple, ast.List)) and len(vx.elts) == len(names)):
+                                pairs = None
+                                break
+                            pairs.append((vx.elts[iR], vx.elts[iA], dx))
+    if pairs is None:
+        pairs = [(R, seq, None)]
+    verdict: Optional[bool] = True
+    notes = []
+    for r, a, at in pairs:
+        tr = _seq_term(S, r, at if at is not None else use_st)
+        ta = _seq_term(S, a, at if at is not None else seq_st)
+        if tr[0] == ta[0] and ta[1][:len(tr[1])] == tr[1]:
+            notes.append(f"`{ast.unparse(r)}` is a prefix of `{ast.unparse(a)}`")
             continue
-        d = by_id.get(did)
-        v = d.value if isinstance(d, ast.Assign) else None
-        if isinstance(v, ast.BinOp) and isinstance(v.op, ast.Add) and isinstance(v.left, ast.Name) and v.left.id == R.id:
-            continue
-        return False, f"`{norm(d) if d is not None else '?'}` does not extend `{R.id}` on the right"
-    return True, f"{R.id} = copy of {src.id}; later definitions only append on the right"
+        if any(piece == tr for piece in ta[1]):
+            return False, f"`{ast.unparse(a)}` puts `{ast.unparse(r)}` behind other names"
+        verdict = None
+        why = f"`{ast.unparse(r)}` vs `{ast.unparse(a)}`: no common origin found"
+    return (True, "; ".join(notes)) if verdict else (None, why)
 
 
 def _check_templates(ctx, rid, f, S: Scope, M: SlotModel, time_slot_ok=True) -> int:
@@ -363,8 +488,10 @@ def r1_single_slot_list(ctx, rid):
                 and call.args and isinstance(call.args[0], ast.Name),
                 f"{rid}: `{norm(st)}`: unrecognised form of the slot-list computation")
     # nobody else produces slot numbers
-    others = [c for f in _cls(ctx).methods.values() for c in walk_shallow(f.node)
-              if isinstance(c, ast.Call) and call_name(c) == "_auto_param_indices" and c is not call]
+    others = [c for f in _cls(ctx).methods.values() if f.qualname != gen.qualname and f not in getattr(gen, "inlined_helper_funcs", ())
+              for c in walk_shallow(f.node)
+              if isinstance(c, ast.Call) and call_name(c) == "_auto_param_indices" and c is not call
+              and not _spliced_into(ctx, gen, f)]
     ctx.require(not others, f"{rid}: _auto_param_indices is called at {len(others) + 1} places (unrecognised: one slot list expected)")
     M = SlotModel(ctx, gen, S)
     A = call.args[0]
@@ -422,6 +549,7 @@ def r1_single_slot_list(ctx, rid):
                     raise AnalysisError(f"{rid}: {callee.qual} receives the slot list in two different ways (unrecognised form)")
                 return True
             analysed[callee] = (slot_params[0], names_param)
+            callee0, callee = callee, _callee_view(ctx, callee)     # private helpers / local generators of the callee spliced in
             Sj = Scope(ctx, callee)
             Mj = SlotModel(ctx, callee, Sj)
             pdefs = frozenset({id(callee.node.args)})
@@ -618,11 +746,41 @@ def _term(S: Scope, e: ast.AST, at: Optional[ast.stmt] = None, depth=0):
         if len(defs) == 1:
             d = defs[0]
             if isinstance(d, ast.Assign) and len(d.targets) == 1 and isinstance(d.targets[0], ast.Name):
-                return _term(S, d.value, d, depth + 1)
+                t = _term(S, d.value, d, depth + 1)
+                # in-place growth between the definition and this use: `x.extend(E)` / `x.append(v)` statements
+                use = at if at is not None else _stmt(e)
+                for g in _inplace_growth(S, e.id, d):
+                    if g is use or use is None:
+                        continue
+                    if S.cfg.dominates(g, use) and not S.cfg.reachable_after(use, g):
+                        c = g.value
+                        if c.func.attr == "extend" and len(c.args) == 1:
+                            t = ("cat", t, _term(S, c.args[0], g, depth + 1))
+                        else:
+                            t = ("cat", t, ("?", ast.unparse(c)))
+                    elif S.cfg.reachable_after(g, use):
+                        t = ("cat", t, ("?", "conditional " + ast.unparse(g.value)))
+                return t
             if isinstance(d, ast.AugAssign) and isinstance(d.op, ast.Add):
                 return ("cat", _term(S, ast.Name(id=e.id, ctx=ast.Load()), d, depth + 1), _term(S, d.value, d, depth + 1))
         return ("name", e.id)
     return ("?", ast.unparse(e))
+
+
+def _inplace_growth(S: Scope, name: str, d) -> list:
+    """`name.extend(..)` / `name.append(..)` / `name.insert(..)` expression statements for which `d` is the only reaching
+    definition of `name`, in source order of the (possibly synthesised) body."""
+    out = []
+    for st in walk_shallow(S.f.node):
+        if isinstance(st, ast.Expr) and isinstance(st.value, ast.Call) and isinstance(st.value.func, ast.Attribute) \
+                and st.value.func.attr in ("extend", "append", "insert") and isinstance(st.value.func.value, ast.Name) \
+                and st.value.func.value.id == name:
+            ds = S.rd.defs_reaching_at(st, name)
+            if len(ds) == 1 and ds[0] is d:
+                out.append(st)
+    # order by dominance (a statement that dominates another comes first)
+    out.sort(key=lambda x: sum(1 for y in out if y is not x and S.cfg.dominates(y, x)))
+    return out
 
 
 def _subst(t, old, new):
@@ -672,6 +830,9 @@ def _reorder_term(ctx, rid, f):
                 t = ("cat", _term(S, ast.Name(id=st.target.id, ctx=ast.Load()), st), _term(S, st.value, st))
             elif isinstance(st, ast.Return) and st.value is not None and isinstance(strip_wrappers(st.value), ast.BinOp):
                 t = _term(S, st.value, st)
+            elif isinstance(st, ast.Expr) and isinstance(st.value, ast.Call) and isinstance(st.value.func, ast.Attribute) \
+                    and st.value.func.attr == "extend" and isinstance(st.value.func.value, ast.Name) and len(st.value.args) == 1:
+                t = ("cat", _term(S, ast.Name(id=st.value.func.value.id, ctx=ast.Load()), st), _term(S, st.value.args[0], st))
             if not t or t[0] != "cat":
                 continue
             parts = _cat_parts(t)
@@ -691,7 +852,8 @@ def _reorder_term(ctx, rid, f):
     if len(srcs) != 1:
         raise AnalysisError(f"{rid}: {g.qual}: cannot identify the incoming name list of `{norm(st)}`")
     X = srcs[0]
-    name = st.targets[0].id if isinstance(st, ast.Assign) else (st.target.id if isinstance(st, ast.AugAssign) else None)
+    name = st.targets[0].id if isinstance(st, ast.Assign) else (st.target.id if isinstance(st, ast.AugAssign) else (
+        st.value.func.value.id if isinstance(st, ast.Expr) else None))
     return S, st, name, _subst(t, X, ("X",)), X, g, call
 
 
@@ -795,7 +957,7 @@ def r2_same_reordering(ctx, rid):
         hit = _flows_to(Sgen, gen, None, set(), [callg], seq) if helper_returns_reordering(hostg, stg) else None
         anchor = _stmt(callg)
     if hit is not None:
-        before = hit.lineno < _stmt(calls[0]).lineno and Sgen.cfg.reachable_after(hit, _stmt(calls[0]))
+        before = Sgen.cfg.reachable_after(hit, _stmt(calls[0])) and not Sgen.cfg.reachable_after(_stmt(calls[0]), hit)
         if before:
             ctx.ok(rid, gen, hit, f"the reordered list becomes `{seq}` before the slots are computed and tabulated",
                    label="reordered list is used", nontrivial=False)
@@ -958,26 +1120,91 @@ def r3_states(ctx, rid):
     else:
         ctx.violation(rid, gen, _stmt(v), f"NDIM is `{ast.unparse(v)}`, not the length of the `state_vars` list that stpnt/unames enumerate",
                       label="ndim= of _build_auto_constants_file")
-    # constants file: NDIM / NPAR stored from the arguments, after the defaults
+    # constants file: NDIM / NPAR stored from the arguments, after the defaults.  The writes into the constants dict are read
+    # as one ordered sequence of (key, value) / (spread, source) items, whatever the spelling (dict(..) + update + item
+    # assignment, or one dict display with ** unpacking, or update(K=v)).
     b = _m(ctx, "_build_auto_constants_file")
-    stores = {}
-    updates = []
-    for i, st in enumerate(b.node.body):
+
+    def dict_items(e, st) -> Optional[list]:
+        """items contributed by a dict-valued expression: [('key', K, value, st) | ('spread', source, st)]"""
+        if isinstance(e, ast.Dict):
+            out = []
+            for k, v in zip(e.keys, e.values):
+                if k is None:
+                    out.append(("spread", v, st))
+                elif isinstance(k, ast.Constant):
+                    out.append(("key", k.value, v, st))
+                else:
+                    return None
+            return out
+        if isinstance(e, ast.Call) and isinstance(e.func, ast.Name) and e.func.id == "dict":
+            out = [("spread", a, st) for a in e.args]
+            for k in e.keywords:
+                out.append(("spread", k.value, st) if k.arg is None else ("key", k.arg, k.value, st))
+            return out
+        if isinstance(e, ast.Call) and isinstance(e.func, ast.Attribute) and e.func.attr == "copy" and not e.args:
+            return [("spread", e.func.value, st)]
+        return None
+    roots = {}
+    for st in walk_shallow(b.node):
         if isinstance(st, ast.Assign) and len(st.targets) == 1 and isinstance(st.targets[0], ast.Subscript) \
-                and isinstance(st.targets[0].slice, ast.Constant) and st.targets[0].slice.value in ("NDIM", "NPAR"):
-            stores[st.targets[0].slice.value] = (i, st)
-        if isinstance(st, ast.Expr) and isinstance(st.value, ast.Call) and call_name(st.value) == "update":
-            updates.append((i, st))
-    ctx.require(set(stores) == {"NDIM", "NPAR"}, f"{rid}: _build_auto_constants_file no longer stores NDIM and NPAR at top level")
+                and isinstance(st.targets[0].slice, ast.Constant) and st.targets[0].slice.value in ("NDIM", "NPAR") \
+                and isinstance(st.targets[0].value, ast.Name):
+            roots[st.targets[0].value.id] = True
+        if isinstance(st, (ast.Assign, ast.AnnAssign)) and isinstance(st.value, (ast.Dict, ast.Call)):
+            tg = st.targets[0] if isinstance(st, ast.Assign) and len(st.targets) == 1 else getattr(st, "target", None)
+            its = dict_items(st.value, st)
+            if isinstance(tg, ast.Name) and its and any(i[0] == "key" and i[1] in ("NDIM", "NPAR") for i in its):
+                roots[tg.id] = True
+        if isinstance(st, ast.Expr) and isinstance(st.value, ast.Call) and call_name(st.value) == "update" \
+                and isinstance(st.value.func.value, ast.Name) and any(k.arg in ("NDIM", "NPAR") for k in st.value.keywords):
+            roots[st.value.func.value.id] = True
+    ctx.require(len(roots) == 1, f"{rid}: _build_auto_constants_file: the dict that receives NDIM and NPAR was not found uniquely ({sorted(roots)})")
+    D = next(iter(roots))
+    seq = []
+    for st in b.node.body:
+        if isinstance(st, (ast.Assign, ast.AnnAssign)):
+            tgs = st.targets if isinstance(st, ast.Assign) else [st.target]
+            if any(isinstance(t, ast.Name) and t.id == D for t in tgs) and st.value is not None:
+                its = dict_items(st.value, st)
+                if its is None:
+                    raise AnalysisError(f"{rid}: {b.qual}: `{norm(st)}` builds the constants dict in an unrecognised way")
+                seq = list(its)
+                continue
+            if any(isinstance(t, ast.Subscript) and isinstance(t.value, ast.Name) and t.value.id == D for t in tgs):
+                t = tgs[0]
+                if isinstance(t.slice, ast.Constant):
+                    seq.append(("key", t.slice.value, st.value, st))
+                else:
+                    seq.append(("spread", st.value, st))
+                continue
+        if isinstance(st, ast.Expr) and isinstance(st.value, ast.Call) and call_name(st.value) in ("update", "setdefault") \
+                and isinstance(st.value.func, ast.Attribute) and isinstance(st.value.func.value, ast.Name) and st.value.func.value.id == D:
+            c = st.value
+            if call_name(c) == "update":
+                for a in c.args:
+                    its = dict_items(a, st) if isinstance(a, (ast.Dict,)) else None
+                    seq += its if its is not None else [("spread", a, st)]
+                for k in c.keywords:
+                    seq.append(("spread", k.value, st) if k.arg is None else ("key", k.arg, k.value, st))
+            continue
+        # conditional / looped writes of the two keys are not understood
+        for x in ast.walk(st):
+            if isinstance(x, ast.Subscript) and isinstance(x.ctx, ast.Store) and isinstance(x.value, ast.Name) and x.value.id == D \
+                    and isinstance(x.slice, ast.Constant) and x.slice.value in ("NDIM", "NPAR"):
+                raise AnalysisError(f"{rid}: {b.qual}: `{norm(st)}` writes NDIM/NPAR conditionally (unrecognised form)")
     for key, pname in (("NDIM", "ndim"), ("NPAR", "npar")):
-        i, st = stores[key]
-        val_ok = isinstance(st.value, ast.Name) and st.value.id == pname
-        later = [u for j, u in updates if j > i and not (isinstance(u.value.args[0], ast.Name) and u.value.args[0].id == "overrides")]
+        idxs = [i for i, it in enumerate(seq) if it[0] == "key" and it[1] == key]
+        ctx.require(bool(idxs), f"{rid}: _build_auto_constants_file no longer stores {key} at top level")
+        i = idxs[-1]
+        _, _, val, st = seq[i]
+        val_ok = isinstance(val, ast.Name) and val.id == pname
+        later = [it for it in seq[i + 1:] if it[0] == "spread" and not (isinstance(it[1], ast.Name) and it[1].id == "overrides")]
         if val_ok and not later:
             ctx.ok(rid, b, st, f"{key} is the `{pname}` argument, stored after the scenario defaults", label=f"consts[{key}]")
         else:
-            ctx.violation(rid, b, st, f"c.* constant {key} is `{ast.unparse(st.value)}`"
-                                      f"{' and is overwritten by ' + norm(later[0]) if later else ''}: it must be the `{pname}` argument "
+            ctx.violation(rid, b, st, f"c.* constant {key} is `{ast.unparse(val)}`"
+                                      f"{' and is overwritten by ' + norm(later[0][-1]) if later else ''}: it must be the `{pname}` argument "
                                       f"(NDIM = number of states, NPAR = largest slot)", label=f"consts[{key}]")
     # state_vars is the layout order: generate_func forwards it; to_func passes ComputeGraph.state_vars = keys of var_updates['DEs']
     gf = _m(ctx, "generate_func")
@@ -1093,7 +1320,7 @@ def _time_slot(ctx):
     backend class (the emission of the `func` wrapper may live in an extracted helper)."""
     gen = _m(ctx, "_generate_auto_files")
     hits = []
-    funcs = [gen] + [f for f in _cls(ctx).methods.values() if f is not gen]
+    funcs = [gen] + [f for f in _cls(ctx).methods.values() if f.qualname != gen.qualname and not _spliced_into(ctx, gen, f)]
     for f in funcs:
         for node, text, holes in templates_in(f.node):
             m = re.match(r"^\s*call ⟨\d+⟩\(\s*args\((\d+)\)\s*,\s*y\s*,\s*dy", text or "")
